@@ -418,6 +418,49 @@ Proof. intros fuel a key v1 b v2 tail m Fa F1 Fb F2 NL. destruct (classify key) 
     + eapply dup_rejected; eauto.
     + apply first_bad; auto. intros m'. unfold PsetMaps.insert_pair. rewrite C. cbn [pbind]. rewrite R. eauto.
   - apply first_bad; auto. intros m'. unfold PsetMaps.insert_pair. rewrite C. cbn [pbind]. eauto. Qed.
+(* ---- BTreeMap::insert on a keyed field keeps a map well-formed (the ELIP accessors) ---- *)
+Lemma set_keyed_wf m i k v : rows_ok -> wf_entries m -> wf_entry (i, k, v) -> wf_entries (set_keyed T m i k v).
+Proof. intros RO [S F] We. unfold set_keyed. destruct (has m i k) eqn:Hh.
+  - split.
+    + apply sorted_map; [|exact S]. intros x. unfold same. destruct (Nat.eqb_spec (slot x) i); [|auto]. destruct (bytes_eqb_spec (ekey x) k); [|auto].
+      cbn [andb slot ekey fst snd]. auto.
+    + unfold replace. rewrite Forall_map. eapply Forall_impl; [|exact F]. intros x Wx. destruct (same i k x); assumption.
+  - destruct We as [Wk Vf]. pose proof Wk as (r & R & K & _). cbn [slot ekey fst snd] in R, K. split.
+    + eapply ins_sorted; eauto. intros x proj Hx D E P. cbn [slot ekey fst snd] in *.
+      rewrite Forall_forall in F. destruct (F x Hx) as [(rx & Rx & Kx & _) _]. rewrite E, R in Rx. inversion Rx; subst rx.
+      eapply kvalid_inj; eauto.
+    + rewrite Forall_forall in *. intros y Hy. apply ins_in in Hy as [->|Hy]; [split; assumption|now apply F]. Qed.
+Lemma has_slot_ins e m j : has_slot (ins e m) j = Nat.eqb (slot e) j || has_slot m j.
+Proof. unfold has_slot. induction m as [|x m IH]; cbn [PsetMaps.ins existsb]; [now rewrite orb_false_r|].
+  destruct (before e x); cbn [existsb]; [reflexivity|]. rewrite IH. now rewrite !orb_assoc, (orb_comm (Nat.eqb (slot x) j)). Qed.
+Lemma has_slot_replace m i k v j : has_slot (replace i k v m) j = has_slot m j.
+Proof. unfold has_slot, replace. induction m as [|x m IH]; [reflexivity|]. cbn [map existsb]. rewrite IH. f_equal.
+  unfold same. destruct (Nat.eqb_spec (slot x) i) as [E|]; [|reflexivity]. destruct (bytes_eqb (ekey x) k); [|reflexivity]. cbn [andb slot fst snd]. now rewrite E. Qed.
+Lemma has_slot_set m i k v j : j <> i -> has_slot (set_keyed T m i k v) j = has_slot m j.
+Proof. intros NE. unfold set_keyed. destruct (has m i k); [apply has_slot_replace|]. rewrite has_slot_ins. cbn [slot fst snd].
+  destruct (Nat.eqb_spec i j); [congruence|reflexivity]. Qed.
+Lemma get_opt_set m i k v j : j <> i -> get_opt (set_keyed T m i k v) j = get_opt m j.
+Proof. intros NE. apply (get_set_other m i k v j []). congruence. Qed.
+Lemma missing_set m i k v : (forall r, nth_error T i = Some r -> r_mand r = false) -> missing T (set_keyed T m i k v) = missing T m.
+Proof. intros NM. unfold missing. induction (seq 0 (length T)) as [|j l IH]; [reflexivity|]. cbn [existsb]. rewrite IH. f_equal.
+  destruct (nth_error T j) as [r|] eqn:R; [|reflexivity]. destruct (Nat.eq_dec j i) as [->|NE].
+  - now rewrite (NM r R).
+  - now rewrite has_slot_set. Qed.
+
+(* ---- framing: whatever the pairs mean, a map decoder that succeeds has consumed exactly the pairs up to the separator ---- *)
+Lemma dec_pair_nil : dec_pair maxvec [] = PErr EInvalid.
+Proof. reflexivity. Qed.
+Lemma dec_entries_framed : forall (ps : list rpair) fuel rest m r, Forall (fits maxvec) ps ->
+  dec_entries fuel (enc_pairs ps ++ x00 :: rest) m = POk r -> snd r = rest.
+Proof. induction ps as [|p ps IH]; intros fuel rest m r F H; (destruct fuel as [|f]; [discriminate|]); cbn [enc_pairs app PsetMaps.dec_entries] in H.
+  - inversion H; reflexivity.
+  - inversion F; subst. rewrite <- app_assoc, (dec_pair_enc _ Hmax _ _ H2) in H. destruct p as [kp vp].
+    destruct (insert_pair kp vp m) as [m1|]; [|discriminate]. cbn [pbind] in H. eapply IH; eauto. Qed.
+Lemma dec_map_framed (ps : list rpair) rest m r : Forall (fits maxvec) ps -> dec_map (enc_pairs ps ++ x00 :: rest) = POk (m, r) -> r = rest.
+Proof. intros F H. unfold PsetMaps.dec_map in H. destruct (dec_entries _ _ []) as [[m' r']|] eqn:D; [|discriminate]. cbn [pbind fst] in H.
+  destruct (post m'); [discriminate|]. inversion H; subst. exact (dec_entries_framed _ _ _ _ _ F D). Qed.
+Lemma dec_map_nil : exists e, dec_map [] = PErr e.
+Proof. unfold PsetMaps.dec_map. cbn [length PsetMaps.dec_entries]. rewrite dec_pair_nil. cbn [pbind]. eauto. Qed.
 End ONE.
 (* ---------------------------------------------------------------- the whole PSET *)
 Section PSET.
@@ -513,4 +556,49 @@ Proof. unfold PsetMaps.deserialize, sanity_check. intros H.
   destruct (dec_maps_inv Ti posti (fun _ => False) ROi (fun _ _ _ F => match F with end) _ _ _ _ Di) as [Li _].
   destruct (dec_maps_inv To posto (fun _ => False) ROo (fun _ _ _ F => match F with end) _ _ _ _ Do) as [Lo _].
   rewrite Li, Lo, !N2Nat.id, !N.eqb_refl. reflexivity. Qed.
+(* ---- inconsistent counts: a byte string made of the magic, a global map and k further maps (any pairs at all, only
+   well-framed) is accepted only if k is the number of inputs plus the number of outputs the decoder read, i.e. (with
+   deserialize_counts) the declared counts; too few maps end in EOF, too many in trailing data ---- *)
+Definition enc_rawmap (ps : list rpair) : bytes := enc_pairs maxvec ps ++ [x00].
+Lemma enc_rawmap_cons ps rest : enc_rawmap ps ++ rest = enc_pairs maxvec ps ++ x00 :: rest.
+Proof. unfold enc_rawmap. now rewrite <- app_assoc. Qed.
+Lemma dec_maps_length T post : forall n bs l r, dec_maps T post n bs = POk (l, r) -> length l = n.
+Proof. induction n as [|n IH]; intros bs l r H; cbn [PsetMaps.dec_maps] in H; [now inversion H|].
+  destruct (PsetMaps.dec_map maxvec T post bs) as [[m r1]|]; [|discriminate]. cbn [pbind fst snd] in H.
+  destruct (dec_maps T post n r1) as [[l' r']|] eqn:D; [|discriminate]. cbn [pbind fst snd] in H. inversion H; subst. cbn. f_equal. eapply IH; eauto. Qed.
+Lemma dec_maps_framed T post : forall n (ms : list (list rpair)) l r, Forall (Forall (fits maxvec)) ms ->
+  dec_maps T post n (concat (map enc_rawmap ms)) = POk (l, r) -> (n <= length ms)%nat /\ r = concat (map enc_rawmap (skipn n ms)).
+Proof. induction n as [|n IH]; intros ms l r F H; cbn [PsetMaps.dec_maps] in H.
+  - inversion H; subst. split; [lia|reflexivity].
+  - destruct ms as [|m1 ms].
+    + cbn [map concat] in H. destruct (dec_map_nil maxvec T post) as [e E]. rewrite E in H. discriminate.
+    + inversion F; subst. cbn [map concat] in H. rewrite enc_rawmap_cons in H.
+      destruct (PsetMaps.dec_map maxvec T post _) as [[m r1]|] eqn:D; [|discriminate]. cbn [pbind fst snd] in H.
+      apply (dec_map_framed maxvec Hmax T post _ _ _ _ H2) in D. subst r1.
+      destruct (dec_maps T post n _) as [[l' r']|] eqn:D'; [|discriminate]. cbn [pbind fst snd] in H. inversion H; subst.
+      destruct (IH _ _ _ H3 D') as [L ->]. split; [cbn; lia|reflexivity]. Qed.
+Lemma in_skipn' {A} n : forall (l : list A) x, In x (skipn n l) -> In x l.
+Proof. induction n as [|n IH]; intros l x H; [exact H|]. destruct l; [exact H|]. right. now apply IH. Qed.
+Lemma concat_rawmaps_nil (ms : list (list rpair)) : concat (map enc_rawmap ms) = [] -> ms = [].
+Proof. destruct ms as [|m ms]; [reflexivity|]. cbn [map concat]. unfold enc_rawmap. intros H. apply app_eq_nil in H as [H _]. apply app_eq_nil in H as [_ H]. discriminate. Qed.
+Theorem framed_count (gps : list rpair) (ms : list (list rpair)) p :
+  Forall (fits maxvec) gps -> Forall (Forall (fits maxvec)) ms ->
+  deserialize (magic ++ enc_rawmap gps ++ concat (map enc_rawmap ms)) = POk p ->
+  length ms = (length (p_inputs p) + length (p_outputs p))%nat.
+Proof. intros Fg Fm H. unfold PsetMaps.deserialize in H.
+  destruct (dec_pset _) as [[p' rest]|] eqn:D; [|discriminate]. cbn [pbind fst snd] in H. destruct rest; [|discriminate]. inversion H; subst p'.
+  destruct (dec_pset_inv _ _ _ D) as (r0 & g & r1 & ins & r2 & outs & E & Dg & _ & Di & _ & Do & ->). cbn [p_inputs p_outputs].
+  apply app_inv_head in E. subst r0. rewrite enc_rawmap_cons in Dg. apply (dec_map_framed maxvec Hmax Tg postg _ _ _ _ Fg) in Dg. subst r1.
+  pose proof (dec_maps_length _ _ _ _ _ _ Di) as Li. pose proof (dec_maps_length _ _ _ _ _ _ Do) as Lo.
+  destruct (dec_maps_framed _ _ _ _ _ _ Fm Di) as [Ni ->].
+  assert (Fs : Forall (Forall (fits maxvec)) (skipn (N.to_nat (n_inputs g)) ms)).
+  { apply Forall_forall. intros x Hx. rewrite Forall_forall in Fm. apply Fm. eapply in_skipn'; eauto. }
+  destruct (dec_maps_framed _ _ _ _ _ _ Fs Do) as [No E2]. symmetry in E2. apply concat_rawmaps_nil in E2.
+  assert (L2 : length (skipn (N.to_nat (n_inputs g)) ms) = N.to_nat (n_outputs g)).
+  { apply (f_equal (@length _)) in E2. rewrite skipn_length in E2. cbn [length] in E2. lia. }
+  rewrite skipn_length in L2. lia. Qed.
+
+Lemma deserialize_global bs' p : deserialize (magic ++ bs') = POk p -> exists r, PsetMaps.dec_map maxvec Tg postg bs' = POk (p_global p, r).
+Proof. unfold PsetMaps.deserialize. destruct (dec_pset _) as [[p' rest]|] eqn:D; [|discriminate]. cbn [pbind fst snd]. destruct rest; [|discriminate]. intros H; inversion H; subst p'.
+  destruct (dec_pset_inv _ _ _ D) as (r0 & g & r1 & ins & r2 & outs & E & Dg & _ & _ & _ & _ & ->). apply app_inv_head in E. subst r0. cbn [p_global]. eauto. Qed.
 End PSET.
